@@ -315,6 +315,56 @@ example : (runSched (init [(.notBlocking, false)] []) [.s 0, .s 0, .s 0, .s 0, .
     (fun p => (p.1.sh.running, p.2.map (·.2))) =
   some (0, [.tau, .tau, .tau, .handed 0 false, .tau, .ret .errInner]) := by decide
 
+/-! ## the caller's protocol (`RedisScanMigratingTask::pre_block`)
+
+`pre_block` is the controller program `start; await` (`start_blocking()` **then**
+`while !blocking_done() { sleep }`), after which the task proceeds (state `PreSwitch`, PRESWITCH to
+the peer) and finally drops the handle: program `B = [start, await, drop]`.  The barrier theorems
+are about `blocking_done() = true` read **while the handle is held** (`C11_barrier_ctrl`); the wait
+loop of `await` is left in exactly that situation: -/
+
+/-- a controller inside the wait loop of `pre_block`, holding its handle: a step either stays in
+the loop (`blocking_done()` was false) or reads `true`, leaves the loop, and from then on nothing
+is handed to the backend until the blocker count returns to 0. -/
+theorem C11_pre_block_protocol {ss ps tr0 s j c s1 o} (hk : ps.length < U32)
+    (h0 : Exec (init ss ps) tr0 s) (hj : s.ctrls[j]? = some c) (hpc : c.pc = .doneLoadW)
+    (hheld : c.held = true) (hstep : step? s (.c j) = some (s1, o)) :
+    o = .polled false ∨
+    (o = .polled true ∧ ∀ tr1 s', ExecWhile (fun x => x.sh.count > 0) s1 tr1 s' →
+      ∀ e ∈ tr1, e.2.isHanded = false) := by
+  rcases step?_cases hstep with ⟨_, _, _, _, hbad, _⟩ | ⟨j', c', sh', c'', hjj, hj', hst, hs1⟩
+  · cases hbad
+  · cases hjj
+    rw [hj] at hj'; cases hj'
+    have ho : o = .polled false ∨ o = .polled true := by
+      unfold stepC at hst; rw [hpc] at hst
+      simp only at hst
+      split at hst <;> simp at hst <;> simp [hst.2.2.symm]
+    rcases ho with ho | ho
+    · exact Or.inl ho
+    · refine Or.inr ⟨ho, fun tr1 s' h1 => ?_⟩
+      subst ho
+      exact C11_barrier_ctrl hk h0 hj hheld hstep h1
+
+/-- the protocol program on the critical interleaving: the sender slipped in before
+`start_blocking`, the wait loop sees it (`polled false`) and only proceeds after the reply. -/
+example : (runSched (init [(.notBlocking, true)] [[.start, .await, .drop]])
+    [.s 0, .s 0, .c 0, .c 0, .c 0, .s 0, .s 0, .s 0, .c 0, .s 0, .c 0]).map
+      (fun p => p.2.map (·.2)) =
+  some [.tau, .tau, .tau, .tau, .polled false, .tau, .handed 0 true, .ret .okHanded,
+        .polled false, .tau, .polled true] := by decide
+
+/-- **the "idle fast path" is not the protocol**: sampling `blocking_done()` *before*
+`start_blocking()` and proceeding on that answer is the program `poll; start`.  In the model it
+breaks the barrier: the controller has read `true`, holds its handle and has proceeded (program
+finished, count = 1), and task 0 is handed to the backend afterwards.  (No contradiction with
+`C11_barrier_ctrl`: the poll was not made while the handle was held.) -/
+example : (runSched (init [(.notBlocking, true)] [[.poll, .start]])
+    [.c 0, .s 0, .s 0, .c 0, .c 0, .s 0, .s 0]).map
+      (fun p => (p.2.map (·.2), p.1.sh.count, p.1.ctrls.map (fun c => (c.pc, c.held)))) =
+  some ([.polled true, .tau, .tau, .tau, .tau, .tau, .handed 0 true], 1, [(.fin, true)]) := by
+  decide
+
 /-! ## which queue: `BlockingMap` hands every user of an address the same queue
 
 The theorems above are about *one* `TaskBlockingQueue`.  The proxy reaches that queue from two
